@@ -220,6 +220,14 @@ def run(ctx):
     region = F.region([nx_raw, ii] + [b_ for p_, b_ in sorted(F.bodies.items()) if b_.crate == "selium" and p_.lstrip("<").startswith("selium::keep_alive::backoff_strategy") and "{closure" not in p_
                                          and p_ not in F.derived_bodies()])
     bodies = sorted(region.values(), key=lambda b: b.path)
+    # (seed c13-22) full range: the law must hold for every delay a Duration can express below the cap. The u64 sub-second constructors
+    # cannot (from_nanos ends at ~584 years), so a delay routed through one of them saturates early: none may be called or passed as a
+    # function value anywhere in the back-off region (Duration::new / from_secs / checked_* / saturating_* keep the full range).
+    import json as _json, re as _re
+    narrow = sorted({(b.path, m) for b in bodies for m in _re.findall(r"core::time::Duration::(from_nanos|from_micros|from_millis)\b", _json.dumps(b.blocks))})
+    ctx.check(not narrow, "C13.D1.full-range", "narrow-constructor",
+              "no delay of the schedule is built through a u64 sub-second constructor (found %s in %d bodies of the back-off region)" % (narrow or "none", len(bodies)),
+              nx_raw.span)
 
     def sub_one(site, body):
         # current_attempt - 1 cannot underflow when the count-shape invariant (>= 1) holds
